@@ -61,11 +61,11 @@ Record Inv (s : state) (sp : sstate) : Prop := {
 
 Ltac use_snap E := match goal with |- context [snap_eqb ?a ?b] => replace (snap_eqb a b) with true by (symmetry; exact E) end.
 
-Lemma step_spec ms s o ob s' sp :
-  Inv s sp -> step ms s o ob = Some s' -> exists sp', spec_step ms sp o ob = Some sp' /\ Inv s' sp'.
+Lemma step_spec0 ms s o ob s' sp :
+  Inv s sp -> step0 ms s o ob = Some s' -> exists sp', spec_step0 ms sp o ob = Some sp' /\ Inv s' sp'.
 Proof.
   intros [Ip It] H. destruct sp as [tab prev]. cbn [sp_prev sp_tab] in *. subst.
-  destruct o as [t d a b c|t l|t l|t p v]; cbn [step spec_step sp_prev sp_tab] in *.
+  destruct o as [t d a b c|t l|t l|t p v]; cbn [step0 spec_step0 sp_prev sp_tab] in *.
   - match type of H with (if ?c then _ else _) = _ => destruct c eqn:E end; [|discriminate]. injection H as <-.
     apply andb_true_iff in E. destruct E as [E1 E2]. pose proof (snap_eqb_eq _ _ E2) as E3.
     rewrite snap_of_amap, amap_app in E2. cbn [amap map fst snd t_val] in E2.
@@ -103,6 +103,12 @@ Proof.
       clear -Ex. induction s as [|[k v] s IH]; [discriminate|]. cbn [alookup amap map fst snd aset] in *.
       destruct (t =? k) eqn:Ek; [injection Ex as ->; apply Z.eqb_eq in Ek; subst; reflexivity|].
       f_equal. exact (IH Ex).
+Qed.
+
+Lemma step_spec ms s o ob s' sp :
+  Inv s sp -> step ms s o ob = Some s' -> exists sp', spec_step ms sp o ob = Some sp' /\ Inv s' sp'.
+Proof.
+  unfold step, spec_step. destruct (o_id ob); [apply step_spec0|discriminate].
 Qed.
 
 Lemma run_spec ms tr : forall s s' sp,
@@ -166,12 +172,12 @@ Theorem set_reading ms sp t p v ob sp' :
     alookup t (sp_tab sp) = Some (d, lis) /\ alookup t (sp_prev sp) = Some before /\
     alookup t (o_snap ob) = Some after /\
     get3 after p = norm d p v /\
-    o_snap ob = aset t (set3 before p (get3 after p)) (sp_prev sp) /\
+    o_snap ob = aset t (set3 before p (get3 after p)) (sp_prev sp) /\ o_id ob = true /\
     length (o_calls ob) = length (filter (fun l => mask_of ms l p) lis) /\
     forall c, In c (o_calls ob) ->
       k_p c = p /\ k_v c = get3 after p /\ k_same c = true /\ In (k_l c) lis /\ mask_of ms (k_l c) p = true.
 Proof.
-  cbn [spec_step]. intro H.
+  unfold spec_step. destruct (o_id ob) eqn:Eid; [|discriminate]. cbn [spec_step0]. intro H.
   destruct (alookup t (sp_tab sp)) as [[d lis]|]; [|discriminate].
   destruct (alookup t (sp_prev sp)) as [before|]; [|discriminate].
   destruct (alookup t (o_snap ob)) as [after|]; [|discriminate].
